@@ -14,7 +14,7 @@ Flag(props, kind) == /\ PrintT(<<"VIOL", run, l, props, kind>>)
                      /\ skip' = TRUE /\ nviol' = nviol + 1 /\ UNCHANGED <<rvars, run, ended>>
 Note(what) == /\ PrintT(<<"NOTE", run, l, what>>) /\ skip' = TRUE /\ UNCHANGED <<rvars, run, nviol, ended>>
 Stutter == UNCHANGED <<rvars, mon>>
-Reset(e) == /\ conn' = 1 /\ connUp' = TRUE /\ live' = [f \in Families |-> "unopened"]
+Reset(e) == /\ conn' = [f \in Families |-> 1] /\ connUp' = [f \in Families |-> TRUE] /\ live' = [f \in Families |-> "unopened"]
             /\ sgen' = [f \in Families |-> [c \in Clones |-> 0]] /\ scid' = [f \in Families |-> [c \in Clones |-> 0]]
             /\ srvNext' = 0 /\ srvLive' = {} /\ pending' = [f \in Families |-> {}] /\ nextReq' = [f \in Families |-> 0]
             /\ atRep' = {} /\ calls' = <<>> /\ ncalls' = 0 /\ ncuts' = 0
@@ -26,7 +26,7 @@ Act(e) == CASE e.op = "open" -> Open(e.f)
             [] e.op = "req" -> Request(e.f, e.c)
             [] e.op = "answer" -> \E x \in atRep : x.call = e.k /\ Answer(x)
             [] e.op = "timeout" -> Timeout(e.k)
-            [] e.op = "cut" -> Cut
+            [] e.op = "cut" -> Cut(e.f)
             [] e.op = "drop" -> Drop(e.f)
             [] OTHER -> FALSE
 \* at the end every call still waiting runs into its timeout
